@@ -36,7 +36,7 @@ fn check_exactly_once(rep: &mut Report, kind: Kind, idx: u64, bi: usize, batch: 
 fn main() {
     let cli = Cli::parse();
     let mut rep = Report::new("C06", &cli);
-    rep.note("rule", json!("case = BatchSort / BatchVisualSort with distance shards 1..4 x voting shards 1..4 and a sequence of 4..10 batches over 1..5 scenes (an eighth of the cases: wide batches of 8..40 scenes), under one of the schedules {free, seeded random delay plan over all vote.* / batch.* / store.* schedule points, every voting thread stalled at vote.result.send (bounded(1) back-pressure), predict loop stalled after each batch.scene.dispatched, voting thread stalled at vote.monitor.dec while the next predict already waits on the monitor, every store write of the voting threads stalled} and one of the two retrieval disciplines the property allows {same thread after predict; consumer thread started before predict with the next batch submitted while it is still draining}. Monitors: (1) exactly-once: every batch delivers exactly one result per submitted scene, each with one record per detection in order; (2) refinement: per scene the grouping (up to an id bijection built incrementally) and the boxes / epochs / lengths (bit-exact) equal those of Sort / VisualSort run on that scene's sequence of detection lists, in same-thread mode also the stored state of every touched track (histories, gallery multiset, collected count, filter state) and every batch scene call is itself judged by the C02 / C12 references; grouping differences go through the explain-divergence oracle; (3) progress: a quiescence detector (all threads sleeping, no CPU time, no hook event for 4 s) turns a hang of predict / get / Drop into a deadlock violation with the last hook site of every thread. Non-trivial: (case) with >= 2 scenes per batch and >= 2 voting threads or a stalling schedule; distinct by case hash; distinct hook-order signatures are counted."));
+    rep.note("rule", json!("case = BatchSort / BatchVisualSort with distance shards 1..4 x voting shards 1..4 and a sequence of 4..10 batches over 1..5 scenes (an eighth of the cases: wide batches of 8..40 scenes), under one of the schedules {free, seeded random delay plan over all vote.* / batch.* / store.* schedule points, every voting thread stalled at vote.result.send (bounded(1) back-pressure), predict loop stalled after each batch.scene.dispatched, voting thread stalled at vote.monitor.dec while the next predict already waits on the monitor, every store write of the voting threads stalled} and one of the two retrieval disciplines the property allows {same thread after predict; consumer thread started before predict with the next batch submitted while it is still draining - in half of those cases the tracker is dropped before the results are drained}. Monitors: (1) exactly-once: every batch delivers exactly one result per submitted scene, each with one record per detection in order; (2) refinement: per scene the grouping (up to an id bijection built incrementally) and the boxes / epochs / lengths (bit-exact) equal those of Sort / VisualSort run on that scene's sequence of detection lists, in same-thread mode also the stored state of every touched track (histories, gallery multiset, collected count, filter state) and every batch scene call is itself judged by the C02 / C12 references; grouping differences go through the explain-divergence oracle; (3) progress: a quiescence detector (all threads sleeping, no CPU time, no hook event for 4 s) turns a hang of predict / get / Drop into a deadlock violation with the last hook site of every thread. Non-trivial: (case) with >= 2 scenes per batch and >= 2 voting threads or a stalling schedule; distinct by case hash; distinct hook-order signatures are counted."));
     rep.note("assumptions", json!(["absence of deadlock is claimed only for the schedules observed (no explicit-state exploration of the monitor/bounded-channel protocol in this family)", "a stall in which threads keep consuming CPU is inconclusive, never a violation"]));
     let ctl = if cli.small { None } else { Some(Controller::install()) };
     let wd = if cli.small { None } else { Some(Watchdog::start(&cli, "C06", ctl.clone())) };
@@ -92,6 +92,7 @@ fn main() {
         rep.max("max_scenes_in_one_batch", batches.iter().map(|b| b.len()).max().unwrap_or(0) as f64);
         let schedule = if cli.small { "free" } else { *rng.pick(&["free", "delay", "delay", "stall:vote.result.send", "stall:batch.scene.dispatched", "stall:vote.monitor.dec", "stall:vote.store_write"]) };
         let consumer_thread = rng.chance(0.4);
+        let early_drop = consumer_thread && rng.chance(0.5);
         let plan_seed = rng.u64();
         rep.eval();
         rep.count(&format!("schedule/{}", schedule));
@@ -117,7 +118,7 @@ fn main() {
                 }
             }
         }
-        let mut trk = AnyTracker::new(&cfg);
+        let mut trk = Some(AnyTracker::new(&cfg));
         let mut outs: Vec<BatchOut> = vec![];
         let mut pres: Vec<Vec<LiveTrack>> = vec![];
         let mut pre_epochs: Vec<HashMap<u64, usize>> = vec![];
@@ -125,7 +126,16 @@ fn main() {
         if consumer_thread {
             let mut pending: Vec<mpsc::Receiver<BatchOut>> = vec![];
             for b in &batches {
-                pending.push(trk.submit_with_consumer(b));
+                pending.push(trk.as_mut().unwrap().submit_with_consumer(b));
+                if let Some(w) = &wd {
+                    w.beat();
+                }
+            }
+            // half of the consumer-thread cases shut the tracker down right after the last submission, while the consumer
+            // threads are still draining: every result must still be delivered
+            if early_drop {
+                rep.count("consumer_mode_cases_with_shutdown_before_results_are_drained");
+                drop(trk.take());
                 if let Some(w) = &wd {
                     w.beat();
                 }
@@ -144,10 +154,10 @@ fn main() {
             }
         } else {
             for b in &batches {
-                pres.push(trk.live());
-                pre_epochs.push((0..scenes as u64).map(|s| (s, trk.epoch(s))).collect());
-                outs.push(trk.predict_batch(b));
-                posts.push(trk.live().into_iter().map(|t| (t.id, t)).collect());
+                pres.push(trk.as_ref().unwrap().live());
+                pre_epochs.push((0..scenes as u64).map(|s| (s, trk.as_ref().unwrap().epoch(s))).collect());
+                outs.push(trk.as_mut().unwrap().predict_batch(b));
+                posts.push(trk.as_ref().unwrap().live().into_iter().map(|t| (t.id, t)).collect());
                 if let Some(w) = &wd {
                     w.beat();
                 }
